@@ -720,6 +720,7 @@ def _as_lazy_seq(ctx, v):
     ex, st = ctx.ex, ctx.st
     v = ex.deref1(st, v) if isinstance(v, Ref) else v
     if isinstance(v, Agg) and v.name == 'LazyIter':
+        ctx._guards = v.fields.get(1)
         return v.fields[0]
     if isinstance(v, Agg) and v.name == 'slice::Iter':
         src, loc = seq_loc(ex, st, v.fields[0])
@@ -813,6 +814,9 @@ def _iter_all_any(ctx, is_all):
         if r is None:
             return NotImplemented
         inside = z3.ULT(BV(i, 64), seq.len)
+        gd = getattr(ctx, '_guards', None)
+        if gd is not None and i < len(gd):
+            inside = z3.And(inside, gd[i])
         terms.append(z3.Implies(inside, r.t) if is_all else z3.And(inside, r.t))
     return Bool(simp(z3.And(terms) if is_all else z3.Or(terms)))
 
@@ -1049,3 +1053,82 @@ def mem_swap(ctx):
     ex.store(st, a.cell, a.path, vb)
     ex.store(st, b.cell, b.path, va)
     return UNIT
+
+
+# --------------------------------------------------------------------------- ranges: new / contains
+
+@contract(r'^(?:std::ops::)?RangeInclusive::<.*>::new$')
+def range_inclusive_new(ctx):
+    return Agg('RangeInclusive', {0: ctx.args[0], 1: ctx.args[1]})
+
+
+@contract(r'^(?:std::ops::)?(?:RangeInclusive|Range|RangeFrom|RangeTo|RangeToInclusive)::<.*>::contains::<.*>$')
+def range_contains(ctx):
+    ex, st = ctx.ex, ctx.st
+    r = ex.deref(st, ctx.args[0])
+    x = ex.deref(st, ctx.args[1])
+    if not (isinstance(r, Agg) and isinstance(x, Int)):
+        return NotImplemented
+    nm = last_seg(r.name)
+    lt = (lambda a, b: a < b) if x.signed else z3.ULT
+    le = (lambda a, b: a <= b) if x.signed else z3.ULE
+    f = r.fields
+    if nm == 'RangeInclusive' and isinstance(f.get(0), Int) and isinstance(f.get(1), Int):
+        return Bool(simp(z3.And(le(f[0].t, x.t), le(x.t, f[1].t))))
+    if nm == 'Range' and isinstance(f.get(0), Int) and isinstance(f.get(1), Int):
+        return Bool(simp(z3.And(le(f[0].t, x.t), lt(x.t, f[1].t))))
+    if nm == 'RangeFrom' and isinstance(f.get(0), Int):
+        return Bool(simp(le(f[0].t, x.t)))
+    if nm == 'RangeTo' and isinstance(f.get(0), Int):
+        return Bool(simp(lt(x.t, f[0].t)))
+    if nm == 'RangeToInclusive' and isinstance(f.get(0), Int):
+        return Bool(simp(le(x.t, f[0].t)))
+    return NotImplemented
+
+
+# --------------------------------------------------------------------------- Iterator::filter as a guard on the lazy view
+
+@contract(r' as Iterator>::filter::<.*>$')
+def iter_filter(ctx):
+    ex, st = ctx.ex, ctx.st
+    seq = _as_lazy_seq(ctx, ctx.args[0])
+    clo = ctx.args[1]
+    body = ex.db.closure_fn(clo.name) if isinstance(clo, Agg) else None
+    if seq is None or body is None or concrete(seq.len) is None or concrete(seq.len) > 8:
+        # explicit short lists only (element references of a Vec in a cell)
+        elems = _explicit_elems(ctx, ctx.args[0])
+        if elems is None or body is None:
+            return NotImplemented
+        seq = SeqV.from_items(elems, None, 'lazy')
+    n = concrete(seq.len)
+    ccell = st.alloc(clo)
+    guards = []
+    for i in range(n):
+        e = seq.at(BV(i, 64), merge=ex.ite)
+        ecell = st.alloc(e)
+        g = ex.call_sub_merge(st, body, [Ref(ccell, ()), Ref(ecell, ())])
+        if g is None:
+            return NotImplemented
+        guards.append(g.t)
+    it = _lazy(seq)
+    return Agg('LazyIter', {0: seq, 1: guards})
+
+
+@contract(r'^(?:std::option::)?Option::<.*>::map_or_else::<.*>$')
+def option_map_or_else(ctx):
+    """Option::map_or_else(default_fn, map_fn) with closure arguments (concrete discriminant only)"""
+    ex, st = ctx.ex, ctx.st
+    v, _ = to_enum(ex, st, ctx.args[0])
+    d = v.discr if isinstance(v.discr, int) else concrete(v.discr)
+    if d is None:
+        return NotImplemented
+    clo = ctx.args[1] if d == 0 else ctx.args[2]
+    body = ex.db.closure_fn(clo.name) if isinstance(clo, Agg) else None
+    if body is None:
+        return NotImplemented
+    args = [clo] if d == 0 else [clo, v.variants.get(1, {}).get(0)]
+    # FnOnce closures take self by value
+    r = ex.call_sub(st, body, args)
+    if r is None:
+        return NotImplemented
+    return r
